@@ -1,7 +1,10 @@
 import Model.NumberTheory
 import Proofs.NTInv
+import Proofs.NTInvFallback
 import Proofs.NTJacobi
 import Proofs.NTSqrt
+import Proofs.NTCip
+import Proofs.NTCipPoly
 /-!
 # C15 — modular inverse, modular square root, Jacobi symbol
 
@@ -41,6 +44,17 @@ theorem inverse_mod_other_inputs (a m : Int) :
   · rw [inverseMod_eq, if_neg ha]; exact h.1 hm
   · rw [inverseMod_eq, if_neg ha]; exact h.2.1 hm hg
   · rw [inverseMod_eq, if_neg ha]; exact h.2.2.2 hm hg
+
+/-- the pre-3.8 fallback variant (`while low > 1: …`, loop condition and body translated from the source) returns the
+same value as the live variant whenever the property applies (`m ≥ 1`, `gcd(a, m) = 1`) -/
+theorem inverse_mod_fallback_eq (a m : Int) (hm : 1 ≤ m) (hg : Int.gcd a m = 1) :
+    inverseModFallback a m = inverseMod a m := by
+  obtain ⟨i, h1, h2, h3, h4⟩ := inverseModFallback_spec a m hm hg
+  obtain ⟨j, g1, g2, g3, g4⟩ := inverse_mod_spec a m hm hg
+  have g4' : m ∣ a * j - 1 := by
+    have := Int.emod_eq_emod_iff_emod_sub_eq_zero.mp g4
+    exact Int.dvd_of_emod_eq_zero this
+  rw [h1, g1, inverse_unique a m i j hg h2 h3 g2 g3 h4 g4']
 
 /-- non-vacuity: negative and oversized arguments on a 61-bit modulus -/
 example : Int.gcd (-3) 2305843009213693951 = 1 ∧ inverseMod (-3) 2305843009213693951 = .ok 768614336404564650 ∧
@@ -112,9 +126,70 @@ theorem sqrt_5mod8 (p : Nat) (hp : p.Prime) (h58 : p % 8 = 5) (a : Int) (h0 : 0 
     ∃ r, squareRootModPrime a p = .ok r ∧ 0 ≤ r ∧ r < p ∧ (r * r) % p = a % p :=
   haveI := Fact.mk hp; sqrt_5mod8' h58 a h0 h1 hs
 
+/-! ### the p ≡ 1 (mod 8) branch (polynomial arithmetic; used for P-224 point decompression) -/
+
+/-- **the list-based `polynomial_*_mod` helpers compute in the quotient ring**: in ANY commutative ring `K` in which
+`p = 0`, for any `t : K` that is a root of the monic `polymod` (`NTCip.evalL l t = Σ lᵢ tⁱ`):
+`polynomial_reduce_mod` preserves the value at `t`, `polynomial_multiply_mod` returns a list whose value is the product,
+`polynomial_exp_mod` one whose value is the power; none of them raises; lengths and coefficient ranges as stated. -/
+theorem poly_ops_are_quotient_ring {K : Type*} [CommRing K] {p : Int} (hpK : ((p : Int) : K) = 0) (hp0 : p ≠ 0) (t : K)
+    (polymod : List Int) (hmonic : polymod.getLast? = some 1) (hlen : 2 ≤ polymod.length)
+    (hroot : NTCip.evalL polymod t = 0) :
+    (∀ poly, ∃ q, polyReduceMod poly polymod p = .ok q ∧ NTCip.evalL q t = NTCip.evalL poly t ∧
+      q.length = min poly.length (polymod.length - 1) ∧ (0 < p → NTCip.InRange p poly → NTCip.InRange p q)) ∧
+    (∀ m1 m2, ∃ q, polyMulMod m1 m2 polymod p = .ok q ∧ NTCip.evalL q t = NTCip.evalL m1 t * NTCip.evalL m2 t ∧
+      q.length = min (m1.length + m2.length - 1) (polymod.length - 1) ∧ (0 < p → NTCip.InRange p q)) ∧
+    (∀ base e, 0 ≤ e → e < p → ∃ q, polyExpMod base e polymod p = .ok q ∧
+      NTCip.evalL q t = NTCip.evalL base t ^ e.toNat) :=
+  NTCip.poly_ops_are_quotient_ring hpK hp0 t polymod hmonic hlen hroot
+
+/-- the same read in `𝔽_p[x]` itself (`NTCip.toPoly p l = Σ lᵢ Xⁱ ∈ (ZMod p)[X]`): the helpers return the canonical
+representative `… %ₘ f` of the product / power modulo the monic `f = toPoly polymod`, coefficients in `[0, p)` -/
+theorem poly_ops_mod_by_monic {p : Nat} [Fact (1 < p)] (polymod : List Int) (hmonic : polymod.getLast? = some 1)
+    (hlen : 2 ≤ polymod.length) :
+    (∀ m1 m2, ∃ q, polyMulMod m1 m2 polymod p = .ok q ∧
+      NTCip.toPoly p q = (NTCip.toPoly p m1 * NTCip.toPoly p m2) %ₘ NTCip.toPoly p polymod ∧
+      q.length < polymod.length ∧ NTCip.InRange p q) ∧
+    (∀ base (e : Int), 0 ≤ e → e < p → NTCip.Reduced p polymod base → ∃ q, polyExpMod base e polymod p = .ok q ∧
+      NTCip.toPoly p q = (NTCip.toPoly p base ^ e.toNat) %ₘ NTCip.toPoly p polymod ∧
+      q.length < polymod.length ∧ NTCip.InRange p q) :=
+  ⟨fun m1 m2 => NTCip.polyMulMod_modByMonic m1 m2 polymod hmonic hlen,
+   fun base e h0 h1 hb => NTCip.polyExpMod_modByMonic base polymod e hmonic hlen h0 h1 hb⟩
+
+/-- p ≡ 1 (mod 8): a residue gets a root.  A suitable `b` with `b² − 4a` a non-residue exists in the scanned range (so
+`RuntimeError("No b found.")` is unreachable), `x^((p+1)/2) mod (x² − b·x + a)` has no linear term (the `assert` holds,
+no `IndexError`) and its constant term squares to `a` (Frobenius in `𝔽_p[x]/(x² − bx + a)`: `tᵖ = b − t`, `tᵖ⁺¹ = a`). -/
+theorem sqrt_1mod8 (p : Nat) (hp : p.Prime) (h18 : p % 8 = 1) (a : Int) (h0 : 0 < a) (h1 : a < p)
+    (hs : IsSquare (a : ZMod p)) :
+    ∃ r, squareRootModPrime a p = .ok r ∧ 0 ≤ r ∧ r < p ∧ (r * r) % p = a % p := by
+  haveI := Fact.mk hp
+  have hp2 : p ≠ 2 := by omega
+  have h3 : 3 ≤ p := by have := hp.two_le; omega
+  rw [sqrt_unfold hp2 a h0 h1, if_neg (leg_ne hs), if_neg (by omega), if_neg (by omega)]
+  exact NTCip.sqrt_1mod8 h18 a h0 h1 hs (fun x => jacobi_eq x p h3 (by omega))
+
+/-- **all odd primes, all `0 ≤ a < p`**: a quadratic residue gets `r` with `r·r ≡ a (mod p)`, `0 ≤ r < p`; a non-residue
+raises `SquareRootError`; nothing else (`RuntimeError`, `AssertionError`, `IndexError`, budget) can happen -/
+theorem sqrt_spec (p : Nat) (hp : p.Prime) (hp2 : p ≠ 2) (a : Int) (h0 : 0 ≤ a) (h1 : a < p) :
+    (IsSquare (a : ZMod p) → ∃ r, squareRootModPrime a p = .ok r ∧ 0 ≤ r ∧ r < p ∧ (r * r) % p = a % p) ∧
+    (¬ IsSquare (a : ZMod p) → squareRootModPrime a p = .error .squareRoot) := by
+  have hodd : p % 2 = 1 := hp.eq_two_or_odd.resolve_left hp2
+  have h2 := hp.two_le
+  rcases eq_or_lt_of_le h0 with rfl | hpos
+  · refine ⟨fun _ => ⟨0, sqrt_zero p (by omega), le_refl _, by omega, rfl⟩, fun h => absurd ?_ h⟩
+    simp
+  · refine ⟨fun hs => ?_, fun hn => sqrt_nonresidue p hp hp2 a hpos h1 hn⟩
+    have h8 : p % 8 = 1 ∨ p % 8 = 3 ∨ p % 8 = 5 ∨ p % 8 = 7 := by omega
+    rcases h8 with h | h | h | h
+    · exact sqrt_1mod8 p hp h a hpos h1 hs
+    · exact sqrt_3mod4 p hp (by omega) a hpos h1 hs
+    · exact sqrt_5mod8 p hp h a hpos h1 hs
+    · exact sqrt_3mod4 p hp (by omega) a hpos h1 hs
+
 /-- non-vacuity: residues and a non-residue in each class, both sub-branches of 5 mod 8 (d = 1: a = 4; d = p-1: a = 5) -/
 example : squareRootModPrime 2 7 = .ok 4 ∧ squareRootModPrime 3 7 = .error .squareRoot ∧
     squareRootModPrime 4 29 = .ok 27 ∧ squareRootModPrime 5 29 = .ok 18 ∧ squareRootModPrime 2 29 = .error .squareRoot ∧
-    squareRootModPrime 3 17 = .error .squareRoot ∧ squareRootModPrime 2 17 = .ok 6 := by decide +kernel
+    squareRootModPrime 3 17 = .error .squareRoot ∧ squareRootModPrime 2 17 = .ok 6 ∧
+    squareRootModPrime 2 1553 = .ok 189 := by decide +kernel
 
 end C15
